@@ -77,6 +77,10 @@ c.finish(
     partial=[
         "data-race freedom and the package-level state (zlib pools, predefined CMaps, CID text mappings) are the race "
         "detector's verdict on randomly scheduled mixes: a TEST over sampled schedules, not a proof",
+        "pool interference has in addition a deterministic oracle in the plain build (coverage.pool): every filter chain "
+        "over {Flate,LZW,A85,AHx,RL} of length 1-3 is decoded and closed, then 3 Flate + 3 LZW streams of independent "
+        "Readers are open at once and read interleaved and must equal their sequential contents - an enumeration of "
+        "chains, still a TEST with respect to schedules",
         "the model's atomic steps are sound only if every critical section really is protected by Extractor.mu; the "
         "enumeration exercises this (verifLocked fires on a missing Lock) but does not prove it",
         "seq_equiv_partial: proved are 'error under some interleaving => same error class alone' and 'success alone => "
